@@ -149,7 +149,7 @@ def finishFlow (s : St) (uid : Nat) : St :=
     element; internal matches are classified `.step`-free `wait` by the translator only if not internal) -/
 def isWaitElem (p : Prog) (pos : Nat) : Bool :=
   match p[pos]? with
-  | some .wait => true
+  | some (.wait _) => true
   | some .waitHeads => true
   | _ => false
 
